@@ -18,7 +18,6 @@ import (
 // Re-exported primitives the shims do not model (not used by the library's shared objects).
 type (
 	WaitGroup = sync.WaitGroup
-	Pool      = sync.Pool
 	Map       = sync.Map
 	Locker    = sync.Locker
 	Cond      = sync.Cond
